@@ -248,7 +248,7 @@ Proof.
 Qed.
 
 Lemma select_filter : forall c r ms,
-  select c r ms = map (mk_pub c r) (filter (addressed c) ms).
+  select c r ms = map (mk_send c r) (filter (addressed c) ms).
 Proof.
   intros c r ms. induction ms as [|m ms IH]; [reflexivity|].
   cbn [select filter]. unfold to_msg. destruct (addressed c m); cbn [map]; now rewrite IH.
@@ -260,45 +260,78 @@ Proof. intros. apply str_eqb_eq. Qed.
 Lemma mqtt_ignores_non_output : forall c r u, is_output u = false -> mqtt_enqueue c r u = [].
 Proof. intros c r u H. destruct u; try reflexivity. discriminate H. Qed.
 
-Lemma mqtt_invariant : forall c h s,
-  publishes_connected (ms_client s) h = true ->
-  let s' := fold_left (mqtt_step c) h s in
-  ms_published s' ++ ms_queue s' = ms_published s ++ ms_queue s ++ mqtt_spec c (ms_reg s) h.
+(* a reconfiguration cannot change the name the target answers to *)
+Lemma cfg_after_name : forall h c, mc_name (cfg_after c h) = mc_name c.
 Proof.
-  intros c h. induction h as [|e h IH]; intros s Hc; cbn [fold_left mqtt_spec].
-  - cbn. now rewrite app_nil_r.
-  - cbn zeta in IH. destruct e as [u| |id info|up]; cbn [publishes_connected] in Hc.
-    + rewrite IH by exact Hc. cbn [mqtt_step ms_published ms_queue ms_reg]. now rewrite <- !app_assoc.
-    + apply andb_true_iff in Hc as [Hup Hc]. cbn [mqtt_step].
+  induction h as [|e h IH]; intros c; [reflexivity|].
+  unfold cfg_after in *. cbn [fold_left]. rewrite IH. now destruct e.
+Qed.
+
+Lemma addressed_cfg_after : forall h c m, addressed (cfg_after c h) m = addressed c m.
+Proof. intros. unfold addressed. now rewrite cfg_after_name. Qed.
+
+(* the shared state inside the target's state is exactly what the history made
+   of it: the target never writes the register, and keeps no second copy *)
+Lemma run_shared_state : forall h s,
+  ms_reg (fold_left mqtt_step h s) = reg_after (ms_reg s) h /\
+  ms_cfg (fold_left mqtt_step h s) = cfg_after (ms_cfg s) h.
+Proof.
+  induction h as [|e h IH]; intros s; [split; reflexivity|].
+  unfold reg_after, cfg_after in *. cbn [fold_left].
+  destruct (IH (mqtt_step s e)) as [IHr IHc]. rewrite IHr, IHc.
+  destruct e as [u| |id new|up|tpl q]; cbn [mqtt_step reg_step cfg_step ms_reg ms_cfg]; try (split; reflexivity).
+  destruct (ms_queue s); split; reflexivity.
+Qed.
+
+Definition pending (s : mstate) : list sendmsg := sent s ++ ms_queue s.
+
+Lemma sent_drain : forall s, sent (mqtt_drain s) = pending s.
+Proof.
+  intros s. unfold sent, pending, mqtt_drain. cbn [ms_published].
+  rewrite map_app, map_map. cbn [p_msg]. now rewrite map_id.
+Qed.
+
+Lemma mqtt_invariant : forall h s,
+  publishes_connected (ms_client s) h = true ->
+  pending (fold_left mqtt_step h s) = pending s ++ mqtt_spec (ms_cfg s) (ms_reg s) h.
+Proof.
+  induction h as [|e h IH]; intros s Hc; cbn [fold_left mqtt_spec].
+  - now rewrite app_nil_r.
+  - destruct e as [u| |id new|up|tpl q]; cbn [publishes_connected] in Hc.
+    + rewrite IH by exact Hc. unfold pending, sent.
+      cbn [mqtt_step ms_published ms_queue ms_reg ms_cfg cfg_step reg_step]. now rewrite <- !app_assoc.
+    + apply andb_true_iff in Hc as [Hup Hc]. cbn [mqtt_step cfg_step reg_step app].
       destruct (ms_queue s) as [|p q] eqn:Eq.
-      * rewrite IH by exact Hc. now rewrite Eq.
+      * now rewrite IH by exact Hc.
       * rewrite Hup in *. rewrite IH by (cbn [ms_client]; exact Hc).
-        cbn [ms_published ms_queue ms_reg]. now rewrite <- !app_assoc.
+        unfold pending, sent. cbn [ms_published ms_queue ms_reg ms_cfg]. rewrite Eq.
+        rewrite map_app. cbn [map p_msg app]. now rewrite <- !app_assoc.
+    + rewrite IH by exact Hc. reflexivity.
     + rewrite IH by exact Hc. reflexivity.
     + rewrite IH by exact Hc. reflexivity.
 Qed.
 
 Lemma mqtt_once_in_order : forall c h,
   publishes_connected false h = true ->
-  ms_published (mqtt_drain (mqtt_run c h)) = mqtt_spec c [] h.
+  sent (mqtt_drain (mqtt_run c h)) = mqtt_spec c [] h.
 Proof.
-  intros c h Hc. unfold mqtt_drain, mqtt_run, mqtt_run_from. cbn [ms_published].
-  pose proof (mqtt_invariant c h mqtt_init Hc) as H. cbn zeta in H. rewrite H. reflexivity.
+  intros c h Hc. rewrite sent_drain. unfold mqtt_run, mqtt_run_from.
+  now rewrite (mqtt_invariant h (mqtt_init c) Hc).
 Qed.
 
 (* at every moment what has been published is a prefix of what the property
    demands: nothing is ever published twice, out of order, or invented *)
 Lemma mqtt_published_prefix : forall c h,
   publishes_connected false h = true ->
-  exists rest, mqtt_spec c [] h = ms_published (mqtt_run c h) ++ rest.
+  exists rest, mqtt_spec c [] h = sent (mqtt_run c h) ++ rest.
 Proof.
   intros c h Hc. exists (ms_queue (mqtt_run c h)). unfold mqtt_run, mqtt_run_from.
-  pose proof (mqtt_invariant c h mqtt_init Hc) as H. cbn zeta in H. now rewrite H.
+  pose proof (mqtt_invariant h (mqtt_init c) Hc) as H. unfold pending in H. now rewrite H.
 Qed.
 
 (* a message taken off the queue while there is no client is lost *)
 Lemma mqtt_publish_without_client_refuted :
-  exists c h, ms_published (mqtt_drain (mqtt_run c h)) <> mqtt_spec c [] h.
+  exists c h, sent (mqtt_drain (mqtt_run c h)) <> mqtt_spec c [] h.
 Proof.
   exists (MkCfg [109] [123; 105; 100; 125] 2),
          [MUpdate (UOutput [MkOsm [109] [116] (RCustom 1 2) None]); MPublish; MClient true].
@@ -325,30 +358,219 @@ Proof.
   - apply sub_skip. now apply IH.
 Qed.
 
-Lemma mqtt_never_invents : forall c h s,
-  let s' := fold_left (mqtt_step c) h s in
-  sub (ms_published s' ++ ms_queue s') (ms_published s ++ ms_queue s ++ mqtt_spec c (ms_reg s) h).
+Lemma sub_In : forall (A : Type) (l1 l2 : list A), sub l1 l2 -> forall x, In x l1 -> In x l2.
 Proof.
-  intros c h. induction h as [|e h IH]; intros s; cbn [fold_left mqtt_spec].
-  - cbn. rewrite app_nil_r. apply sub_refl.
-  - cbn zeta in IH. destruct e as [u| |id info|up].
-    + specialize (IH (mqtt_step c s (MUpdate u))). cbn [mqtt_step ms_published ms_queue ms_reg] in IH.
-      now rewrite <- !app_assoc in IH.
-    + specialize (IH (mqtt_step c s MPublish)). cbn [mqtt_step] in *.
+  intros A l1 l2 H. induction H as [l|y l1 l2 H IH|y l1 l2 H IH]; intros x Hx.
+  - destruct Hx.
+  - destruct Hx as [->|Hx]; [now left | right; now apply IH].
+  - right. now apply IH.
+Qed.
+
+Lemma mqtt_never_invents : forall h s,
+  sub (pending (fold_left mqtt_step h s)) (pending s ++ mqtt_spec (ms_cfg s) (ms_reg s) h).
+Proof.
+  induction h as [|e h IH]; intros s; cbn [fold_left mqtt_spec].
+  - rewrite app_nil_r. apply sub_refl.
+  - destruct e as [u| |id new|up|tpl q].
+    + specialize (IH (mqtt_step s (MUpdate u))). unfold pending, sent in *.
+      cbn [mqtt_step ms_published ms_queue ms_reg ms_cfg cfg_step reg_step] in *.
+      now rewrite <- !app_assoc in *.
+    + specialize (IH (mqtt_step s MPublish)). cbn [mqtt_step cfg_step reg_step app] in *.
       destruct (ms_queue s) as [|p q] eqn:Eq.
-      * now rewrite Eq in IH.
-      * cbn [ms_published ms_queue ms_reg] in IH. destruct (ms_client s).
-        -- now rewrite <- !app_assoc in IH.
-        -- eapply sub_trans; [|exact IH]. apply sub_app_l. cbn [app]. apply sub_skip. apply sub_refl.
-    + exact (IH (mqtt_step c s (MRegister id info))).
-    + exact (IH (mqtt_step c s (MClient up))).
+      * exact IH.
+      * unfold pending, sent in *. cbn [ms_published ms_queue ms_reg ms_cfg] in IH. rewrite Eq.
+        destruct (ms_client s).
+        -- rewrite map_app in IH. cbn [map p_msg] in IH. rewrite <- !app_assoc in IH.
+           rewrite <- !app_assoc. exact IH.
+        -- eapply sub_trans; [|exact IH]. rewrite <- !app_assoc. apply sub_app_l. cbn [app].
+           apply sub_skip. apply sub_refl.
+    + exact (IH (mqtt_step s (MInfo id new))).
+    + exact (IH (mqtt_step s (MClient up))).
+    + exact (IH (mqtt_step s (MReconf tpl q))).
 Qed.
 
 Lemma mqtt_published_sub_spec : forall c h,
-  sub (ms_published (mqtt_drain (mqtt_run c h))) (mqtt_spec c [] h).
+  sub (sent (mqtt_drain (mqtt_run c h))) (mqtt_spec c [] h).
 Proof.
-  intros c h. unfold mqtt_drain, mqtt_run, mqtt_run_from. cbn [ms_published].
-  exact (mqtt_never_invents c h mqtt_init).
+  intros c h. rewrite sent_drain. unfold mqtt_run, mqtt_run_from.
+  exact (mqtt_never_invents h (mqtt_init c)).
+Qed.
+
+(* ---- the demand, message by message: configuration and register of ITS moment *)
+
+Lemma select_demanded : forall c r ms,
+  select c r ms = flat_map demanded (map (pair (c, r)) ms).
+Proof.
+  intros c r ms. induction ms as [|m ms IH]; [reflexivity|].
+  cbn [select map flat_map demanded]. unfold to_msg. destruct (addressed c m); cbn [app]; now rewrite IH.
+Qed.
+
+Lemma mqtt_spec_stamped : forall h c r,
+  mqtt_spec c r h = flat_map demanded (stamped c r h).
+Proof.
+  induction h as [|e h IH]; intros c r; [reflexivity|].
+  cbn [mqtt_spec stamped]. rewrite flat_map_app, <- IH. f_equal.
+  destruct e as [u| | | |]; try reflexivity.
+  destruct u; try reflexivity. cbn [mqtt_enqueue msgs_of]. apply select_demanded.
+Qed.
+
+Lemma stamped_app : forall h1 h2 c r,
+  stamped c r (h1 ++ h2) = stamped c r h1 ++ stamped (cfg_after c h1) (reg_after r h1) h2.
+Proof.
+  induction h1 as [|e h1 IH]; intros h2 c r; [reflexivity|].
+  cbn [app stamped]. rewrite IH. unfold cfg_after, reg_after. cbn [fold_left]. now rewrite app_assoc.
+Qed.
+
+(* a message emitted after the prefix [h1] of the history is stamped with the
+   register all the update_info calls of [h1] - and no others - have produced *)
+Lemma stamped_at : forall h1 ms h2 c r,
+  stamped c r (h1 ++ MUpdate (UOutput ms) :: h2) =
+  stamped c r h1 ++ map (pair (cfg_after c h1, reg_after r h1)) ms
+  ++ stamped (cfg_after c h1) (reg_after r h1) h2.
+Proof. intros. rewrite stamped_app. reflexivity. Qed.
+
+Lemma stamped_In : forall h c r c' r' m,
+  In (c', r', m) (stamped c r h) ->
+  exists h1 u h2, h = h1 ++ MUpdate u :: h2 /\ In m (msgs_of u) /\
+                  c' = cfg_after c h1 /\ r' = reg_after r h1.
+Proof.
+  induction h as [|e h IH]; intros c r c' r' m H; [destruct H|].
+  cbn [stamped] in H. apply in_app_or in H as [H|H].
+  - destruct e as [u| | | |]; try destruct H.
+    apply in_map_iff in H as [m0 [E Hm]]. injection E as <- <- <-.
+    exists [], u, h. repeat split. exact Hm.
+  - apply IH in H as [h1 [u [h2 [-> [Hm [-> ->]]]]]].
+    exists (e :: h1), u, h2. repeat split. exact Hm.
+Qed.
+
+(* EVERY history, EVERY moment: a message the client was handed is an emitted,
+   addressed message, with the topic of the template and the ingress metadata of
+   the register AS THEY WERE WHEN THE MESSAGE WAS EMITTED *)
+Lemma published_In_pending : forall h s x,
+  In x (sent (fold_left mqtt_step h s)) -> In x (sent (mqtt_drain (fold_left mqtt_step h s))).
+Proof. intros h s x H. rewrite sent_drain. unfold pending. apply in_or_app. now left. Qed.
+
+Lemma mqtt_published_metadata : forall c h p,
+  In p (ms_published (mqtt_run c h)) ->
+  exists h1 u h2 m,
+    h = h1 ++ MUpdate u :: h2 /\ In m (msgs_of u) /\ m_name m = mc_name c /\
+    p_msg p = mk_send (cfg_after c h1) (reg_after [] h1) m.
+Proof.
+  intros c h p Hp.
+  assert (Hs : In (p_msg p) (sent (mqtt_run c h))) by (unfold sent; now apply in_map).
+  unfold mqtt_run, mqtt_run_from in Hs. apply published_In_pending in Hs.
+  apply (sub_In _ _ _ (mqtt_published_sub_spec c h)) in Hs.
+  rewrite mqtt_spec_stamped in Hs. apply in_flat_map in Hs as [[[c' r'] m] [Hst Hd]].
+  apply stamped_In in Hst as [h1 [u [h2 [-> [Hm [-> ->]]]]]].
+  cbn [demanded] in Hd. destruct (addressed (cfg_after c h1) m) eqn:Ea; [|destruct Hd].
+  destruct Hd as [Hd|[]]. exists h1, u, h2, m. repeat split; try assumption.
+  - rewrite addressed_cfg_after in Ea. now apply addressed_iff.
+  - now symmetry.
+Qed.
+
+Lemma mqtt_spec_app : forall h1 h2 c r,
+  mqtt_spec c r (h1 ++ h2) = mqtt_spec c r h1 ++ mqtt_spec (cfg_after c h1) (reg_after r h1) h2.
+Proof.
+  intros. rewrite !mqtt_spec_stamped, stamped_app. apply flat_map_app.
+Qed.
+
+Definition is_mupdate (e : mev) : bool := match e with MUpdate _ => true | _ => false end.
+
+Lemma mqtt_spec_no_updates : forall h c r,
+  forallb (fun e => negb (is_mupdate e)) h = true -> mqtt_spec c r h = [].
+Proof.
+  induction h as [|e h IH]; intros c r H; [reflexivity|].
+  cbn [forallb] in H. apply andb_true_iff in H as [He H]. cbn [mqtt_spec].
+  rewrite IH by exact H. destruct e; try reflexivity. discriminate He.
+Qed.
+
+(* what happens to the register AFTER a message was emitted - while it waits on
+   pub_q, while it is published - does not reach it: an update_info that no
+   emission follows changes nothing of what is demanded (and so, by the
+   theorems above, of what is published) *)
+Lemma later_update_info_invisible : forall c h1 id new h2,
+  forallb (fun e => negb (is_mupdate e)) h2 = true ->
+  mqtt_spec c [] (h1 ++ MInfo id new :: h2) = mqtt_spec c [] (h1 ++ h2).
+Proof.
+  intros c h1 id new h2 H. rewrite !mqtt_spec_app. f_equal.
+  cbn [mqtt_spec app]. now rewrite !mqtt_spec_no_updates by exact H.
+Qed.
+
+(* ---- what the register holds for an id *)
+
+Lemma reg_get_update : forall r id new id',
+  reg_get (reg_update r id new) id' =
+  if N.eqb id id' then merge_opt (reg_get r id) new else reg_get r id'.
+Proof.
+  intros r id new id'. unfold reg_update. cbn [reg_get].
+  destruct (N.eqb id id') eqn:E; reflexivity.
+Qed.
+
+(* the entry of an id is the merge of the update_info calls for THAT id, in
+   order; calls for other ids, and everything the target does, leave it alone *)
+Lemma reg_get_after : forall h r id,
+  reg_get (reg_after r h) id = fold_left merge_opt (updates_for id h) (reg_get r id).
+Proof.
+  induction h as [|e h IH]; intros r id; [reflexivity|].
+  unfold reg_after in *. cbn [fold_left]. rewrite IH. unfold updates_for. cbn [flat_map].
+  rewrite fold_left_app. f_equal.
+  destruct e as [u| |k new|up|tpl q]; try reflexivity.
+  cbn [reg_step]. rewrite reg_get_update. destruct (N.eqb k id) eqn:E; [|reflexivity].
+  apply N.eqb_eq in E. now subst.
+Qed.
+
+Lemma fld_merge : forall p, In p info_fields ->
+  forall o new, fld p (merge_opt o new) = upd_field (fld p o) (p new).
+Proof.
+  intros p Hp o new. unfold merge_opt, merged, fld.
+  destruct o as [old|].
+  - unfold info_fields in Hp. cbn [In] in Hp.
+    repeat (destruct Hp as [<-|Hp]; [reflexivity|]). destruct Hp.
+  - now destruct (p new).
+Qed.
+
+(* field by field: the value of a field is the last one any update_info for the
+   id supplied; a call that leaves the field unset does not touch it *)
+Lemma field_after : forall p, In p info_fields -> forall h id,
+  fld p (reg_get (reg_after [] h) id) = fold_left upd_field (map p (updates_for id h)) None.
+Proof.
+  intros p Hp h id. rewrite reg_get_after. cbn [reg_get].
+  change (@None N) with (fld p None).
+  generalize (@None info) as o. induction (updates_for id h) as [|new l IH]; intros o; [reflexivity|].
+  cbn [fold_left map]. rewrite IH. now rewrite fld_merge.
+Qed.
+
+(* the QoS: every publication uses the QoS of the configuration in force at
+   that moment; if no reconfiguration changes it, the configured one *)
+Definition keeps_qos (q : N) (e : mev) : bool :=
+  match e with MReconf _ q' => N.eqb q' q | _ => true end.
+
+Lemma qos_invariant : forall q h s,
+  forallb (keeps_qos q) h = true -> mc_qos (ms_cfg s) = q ->
+  Forall (fun p => p_qos p = q) (ms_published s) ->
+  let s' := fold_left mqtt_step h s in
+  mc_qos (ms_cfg s') = q /\ Forall (fun p => p_qos p = q) (ms_published s').
+Proof.
+  intros q h. induction h as [|e h IH]; intros s Hk Hq Hp; [now split|].
+  cbn [forallb] in Hk. apply andb_true_iff in Hk as [He Hk]. cbn [fold_left].
+  apply IH; [exact Hk| |].
+  - destruct e as [u| |id new|up|tpl q']; cbn [mqtt_step ms_cfg]; try exact Hq.
+    + now destruct (ms_queue s).
+    + cbn [keeps_qos] in He. apply N.eqb_eq in He. now subst.
+  - destruct e as [u| |id new|up|tpl q']; cbn [mqtt_step ms_published]; try exact Hp.
+    destruct (ms_queue s) as [|x xs]; [exact Hp|]. cbn [ms_published].
+    destruct (ms_client s); [|exact Hp].
+    apply Forall_app. split; [exact Hp|]. constructor; [exact Hq|constructor].
+Qed.
+
+Lemma qos_configured : forall c h,
+  forallb (keeps_qos (mc_qos c)) h = true ->
+  Forall (fun p => p_qos p = mc_qos c) (ms_published (mqtt_drain (mqtt_run c h))).
+Proof.
+  intros c h Hk. unfold mqtt_run, mqtt_run_from.
+  destruct (qos_invariant (mc_qos c) h (mqtt_init c) Hk eq_refl (Forall_nil _)) as [Hq Hp].
+  cbn zeta in Hq, Hp. unfold mqtt_drain. cbn [ms_published]. apply Forall_app. split; [exact Hp|].
+  rewrite Hq. induction (ms_queue _) as [|x xs IH]; constructor; [reflexivity|exact IH].
 Qed.
 
 (* topic template *)
